@@ -23,6 +23,8 @@ var msgTypes = []proto.Message{
 	&traits.Brightness{},
 	&traits.AirTemperature{},
 	&traits.ElectricMode{},
+	&traits.Occupancy{},
+	&traits.FanSpeed{},
 }
 
 type c06 struct {
@@ -266,6 +268,26 @@ func (g *c06) maskFor(msg proto.Message, class string) (*fieldmaskpb.FieldMask, 
 		}
 		o := pmd.Fields().Get(r.Intn(pmd.Fields().Len()))
 		return &fieldmaskpb.FieldMask{Paths: []string{c, p + "." + string(o.Name())}}, vmsg.PathValid, true
+	case "prefix-named-siblings":
+		// two sibling fields one of whose NAMES is a string prefix of the other's, in either order,
+		// sometimes continued below the shorter-named one
+		pairs := vmsg.PrefixNamedPairs(md, 1)
+		if len(pairs) == 0 {
+			return nil, 0, false
+		}
+		pr := pairs[r.Intn(len(pairs))]
+		short, long := pr[0], pr[1]
+		if c, ok := childOf(r, md, short); ok && r.Chance(40) {
+			short = c
+		}
+		ps := []string{short, long}
+		if r.Bool() {
+			ps = []string{long, short}
+		}
+		if r.Chance(30) {
+			ps = append(ps, some())
+		}
+		return &fieldmaskpb.FieldMask{Paths: ps}, vmsg.PathValid, true
 	case "through-repeated-message":
 		p, ok := populatedPath(r, msg.ProtoReflect(), true)
 		kind := vmsg.PathValid
@@ -332,7 +354,7 @@ func genC06(o *vcoq.Out, r *vcoq.Rand, tier string) error {
 		scale = 15
 	}
 	classes := []string{"nil", "empty", "single", "single", "multi", "multi", "duplicate", "parent+child", "parent+child",
-		"child+parent", "child+parent", "siblings", "through-repeated-message"}
+		"child+parent", "child+parent", "siblings", "through-repeated-message", "prefix-named-siblings", "prefix-named-siblings"}
 	cfgs := []vmsg.RandCfg{vmsg.DefaultCfg, {FieldPct: 60, Depth: 2, MaxList: 2}, {FieldPct: 12, Depth: 3, MaxList: 3}}
 	emit := func(msg proto.Message, fm *fieldmaskpb.FieldMask, kind vmsg.PathKind, class string) {
 		panicked := g.observe(opFilterClone, msg, fm, kind, class)
@@ -352,8 +374,16 @@ func genC06(o *vcoq.Out, r *vcoq.Rand, tier string) error {
 		if r.Chance(35) {
 			proto = msgTypes[1+r.Intn(len(msgTypes)-1)]
 		}
-		msg := vmsg.RandMsg(r, proto, cfgs[r.Intn(len(cfgs))])
 		class := classes[r.Intn(len(classes))]
+		cfg := cfgs[r.Intn(len(cfgs))]
+		if class == "prefix-named-siblings" {
+			// only some trait messages have such fields; populate them
+			for len(vmsg.PrefixNamedPairs(proto.ProtoReflect().Descriptor(), 1)) == 0 {
+				proto = msgTypes[1+r.Intn(len(msgTypes)-1)]
+			}
+			cfg = vmsg.RandCfg{FieldPct: 70, Depth: 2, MaxList: 2}
+		}
+		msg := vmsg.RandMsg(r, proto, cfg)
 		fm, kind, ok := g.maskFor(msg, class)
 		if !ok {
 			continue
